@@ -18,8 +18,10 @@ pub mod c35;
 pub mod c37;
 pub mod c04;
 pub mod c05;
+pub mod c06;
 pub mod c07;
 pub mod c40;
+pub mod refchecks;
 pub mod c41;
 pub mod c42;
 pub mod c49;
@@ -41,8 +43,11 @@ pub fn dispatch(id: &str, args: &[String]) -> ! {
         "C49" => c49::run(args),
         "C04" => c04::run(args),
         "C05" => c05::run(args),
+        "C06" => c06::run(args),
         "C07" => c07::run(args),
         "C40" => c40::run(args),
+        "C16" => refchecks::run("C16", args),
+        "C18" => refchecks::run("C18", args),
         "C41" => c41::run(args),
         "C42" => c42::run(args),
         "C17" => dirchecks::run("C17", args),
